@@ -93,6 +93,11 @@ pub enum M {
     OwnUnit,
     /// std::process::Termination::report as a mocked method (mock-std)
     TermReport,
+    /// a method of a generic trait whose signature does not mention the type parameter, two instantiations
+    GnU8,
+    GnU16,
+    /// a required method whose answer function takes a clone of the instance it is given (C09)
+    StashReq,
 }
 
 #[derive(Clone, Copy, Debug, PartialEq, Eq)]
@@ -185,6 +190,9 @@ pub const ALL_M: &[M] = &[
     M::OwnOptMulti,
     M::OwnUnit,
     M::TermReport,
+    M::GnU8,
+    M::GnU16,
+    M::StashReq,
 ];
 
 impl M {
@@ -216,6 +224,9 @@ impl M {
             M::GmU16 => ("GenM", "gm", false, false, false, Recv::Ref, false),
             M::GiU8 => ("GenI", "gi", false, false, false, Recv::Ref, false),
             M::GiU16 => ("GenI", "gi", false, false, false, Recv::Ref, false),
+            M::GnU8 => ("Gen", "nt", false, false, false, Recv::Ref, false),
+            M::GnU16 => ("Gen", "nt", false, false, false, Recv::Ref, false),
+            M::StashReq => ("Stash", "stash_req", false, false, false, Recv::Ref, false),
             M::N0 => ("NoApi", "n0", false, false, true, Recv::Ref, false),
             M::E0 => ("Expl", "e0", true, false, true, Recv::Ref, false),
             M::LendA => ("Lend", "lend_a", false, false, false, Recv::Ref, false),
@@ -400,6 +411,8 @@ pub struct Config {
 /// Clauses for methods whose responses are instrumented values (C12, C13, C09).
 #[derive(Serialize, Deserialize, Clone, Debug, PartialEq, Eq, Hash)]
 pub enum Special {
+    /// Stash::stash_req: each_call(_).answers(|u| { keep u.clone() for the caller; .. })
+    StashClone,
     /// each_call(_).answers(|u| u.make_ref(ValA))
     LendA,
     LendB,
@@ -418,6 +431,8 @@ pub enum Special {
     OwnSingle { ordered: bool, once: bool, then_answers: bool, id: u32 },
     /// returns(TrackedC{id}) quantified for repeated use
     OwnMulti { quant: Quant, each_call: bool, id: u32 },
+    /// returns(TrackedC{id}).n_times(n).then().returns(TrackedC{id2}): two stored values on one chain
+    OwnMultiThen { n: u32, each_call: bool, id: u32, id2: u32 },
     /// -> Option<Tracked>, single use
     OwnOpt { id: u32 },
     /// -> Result<&u32, Tracked>: Err leaf owned, single use
@@ -483,6 +498,13 @@ pub enum Op {
     Clone {
         src: u8,
         dst: u8,
+    },
+    /// a clone taken by the answer function of `Stash::stash_req` (from the instance *it* is given), called
+    /// directly or through the provided `stash_prov`, and handed to the caller, who puts it into `dst`
+    CloneInside {
+        src: u8,
+        dst: u8,
+        via_default: bool,
     },
     Drop {
         slot: u8,
